@@ -14,7 +14,15 @@ pub mod refm;
 #[cfg(kani)]
 pub mod c01;
 #[cfg(kani)]
+pub mod c02;
+#[cfg(kani)]
+pub mod c03;
+#[cfg(kani)]
+pub mod c06;
+#[cfg(kani)]
 pub mod c08;
+#[cfg(kani)]
+pub mod c12;
 #[cfg(kani)]
 pub mod c10;
 #[cfg(kani)]
